@@ -136,6 +136,45 @@ func main() {
 				mu.Lock()
 				cells[cell+"+adversarial-supplement"]++
 				mu.Unlock()
+				// the same with a borrowed position: a genuine live element first, then the spent one carrying that
+				// element's leaf index and proof
+				bs2 := res.Supp
+				bs2.Transactions = append([]consensus.V1TransactionSupplement(nil), res.Supp.Transactions...)
+				borrowed := false
+				for _, in := range txn.SiacoinInputs {
+					if e, ok := sim.Store.GoneSC[in.ParentID]; ok {
+						for _, id := range chain.SortedIDs(sim.Store.SC) {
+							y := sim.Store.SC[id]
+							f := e.Copy()
+							f.StateElement = y.StateElement.Copy()
+							bs2.Transactions[ti].SiacoinInputs = []types.SiacoinElement{y.Copy(), f}
+							borrowed = true
+							break
+						}
+					}
+				}
+				for _, in := range txn.SiafundInputs {
+					if e, ok := sim.Store.GoneSF[in.ParentID]; ok {
+						for _, id := range chain.SortedIDs(sim.Store.SF) {
+							y := sim.Store.SF[id]
+							f := e.Copy()
+							f.StateElement = y.StateElement.Copy()
+							bs2.Transactions[ti].SiafundInputs = []types.SiafundElement{y.Copy(), f}
+							borrowed = true
+							break
+						}
+					}
+				}
+				if borrowed {
+					err, pan := sim.Validate(*res.Block, bs2)
+					if pan == nil && err == nil {
+						c.Violation("accepted-invalid/reuse-gone-borrowed-position", "v1 block re-using an element spent in an earlier block accepted when the supplement lists a genuine live element first and then the spent one with that element's position and proof",
+							chain.Payload(sim, beh, i))
+					}
+					mu.Lock()
+					cells[cell+"+borrowed-position"]++
+					mu.Unlock()
+				}
 			}
 		},
 	}
@@ -155,7 +194,7 @@ func main() {
 		{"mixed", []string{"pay", "sf", "form1", "rev1", "prove1", "form2", "rev2", "res2"}}} {
 		cfg := chain.BaseConfig(chain.Shapes()[rn.shape])
 		cfg.Templates = rn.tpl
-		cfg.Defects = []string{"reuse", "intx", "confuse"}
+		cfg.Defects = []string{"reuse", "intx", "confuse", "inblock"}
 		cfg.MaxReverts = 2
 		o := opts
 		if len(rn.tpl) < len(chain.AllTemplates) {
@@ -223,13 +262,13 @@ func main() {
 			p.GenSF = []chain.AbsOut{{7000, "Z"}, {3000, "Z"}}
 			cfg.P = p
 		}
-		cfg.Templates, cfg.Defects = f.tpl, []string{"reuse", "intx", "confuse"}
+		cfg.Templates, cfg.Defects = f.tpl, []string{"reuse", "intx", "confuse", "inblock"}
 		cfg.Pay1, cfg.Sizes, cfg.RevShifts, cfg.FormRH = []int{256411}, []int{200}, []int{24}, [][2]int{{250024, 25}}
 		cfg.PayAmts, cfg.Fees, cfg.SFSplits = []int{599}, []int{0}, []int{3000}
 		cfg.WinStarts, cfg.WinLens = []int{1}, []int{2}
 		cfg.MaxHeight, cfg.MaxTxns, cfg.MaxReverts, cfg.NoPost = f.height, f.txns, 0, true
-		if f.name == "v1-contract-empty" {
-			cfg.Sizes = []int{0}
+		if f.name == "v1-contract-empty" || f.name == "v2-contract" {
+			cfg.Sizes = []int{0} // (v2: contracts with an even proof height are empty, the others are not)
 		}
 		if f.name == "v2-confuse" {
 			cfg.Defects = []string{"confuse"}
@@ -257,7 +296,7 @@ func main() {
 	}
 	c.Traces(int64(total.Behaviours))
 	c.Count(int64(total.Steps), nontriv)
-	for _, need := range []string{"v2:pay!intx", "v1:pay!intx", "v2:pay!reuse", "v1:pay!reuse", "v2:reuse-gone", "v1:reuse-gone", "v2:sf!reuse", "v2:sf!intx", "v1:confuse", "v2:confuse", "v1:prove1!intx", "v1:sfdev!reuse", "v1:sfdev!intx"} {
+	for _, need := range []string{"v2:pay!intx", "v1:pay!intx", "v2:pay!reuse", "v1:pay!reuse", "v2:reuse-gone", "v1:reuse-gone", "v2:sf!reuse", "v2:sf!intx", "v1:confuse", "v2:confuse", "v1:prove1!intx", "v1:sfdev!reuse", "v1:sfdev!intx", "v2:rev2!inblock"} {
 		if cells[need] == 0 {
 			c.Infra("vacuity: second-use cell %s never exercised", need)
 		}
